@@ -10,6 +10,7 @@
 #include <algorithm>
 #include <igris/buffer.h>
 #include <igris/util/string.h>
+#include <string_view>
 
 // input class of the sub-check that is running: the suffix of every signature produced below
 static const char *g_sfx = ".long_input";
@@ -21,6 +22,7 @@ static void long_split_char_join(const Str &s, char d)
     if (want.size() > 255 || s.size() > 255)
         mc::nontrivial();
     PL b(s);
+    b.freeze();
     mc::crash_context("C19.split_char.memory%s", g_sfx);
     Toks got = igris::split(igris::buffer((const void *)b.p, b.n), d);
     mc::crash_context("C19.harness");
@@ -37,13 +39,17 @@ static void long_split_char_join(const Str &s, char d)
                       esc(Str(1, d)).c_str(), escb(j).c_str());
     {
         PL jb(j, 1);
+        jb.freeze();
         mc::crash_context("C19.split_char.memory%s", g_sfx);
         Toks rt = igris::split(igris::buffer((const void *)jb.p, jb.n), d);
         mc::crash_context("C19.harness");
         if (rt != want)
             mc::violation(Str("C19.split_join.roundtrip") + g_sfx, "split(join(%s)) = %s", escb(want).c_str(), escb(rt).c_str());
     }
+    if (d == '\0')
+        return; // the iterator overload takes its delimiter as a C string: NUL cannot be one
     CS ds(Str(1, d), 2), e1("", 3), e2("", 4);
+    ds.freeze(), e1.freeze(), e2.freeze();
     mc::crash_context("C19.join_iter.memory%s", g_sfx);
     Str ji = w_join_iter(want, ds.p, e1.p, e2.p);
     mc::crash_context("C19.harness");
@@ -58,6 +64,7 @@ static void long_split_delims(const Str &s, const char *ds)
     Toks want = ref_split(s, isd);
     PL b(s);
     CS dl(ds, 1);
+    b.freeze(), dl.freeze();
     mc::crash_context("C19.split_delims.memory%s", g_sfx);
     Toks got = igris::split(igris::buffer((const void *)b.p, b.n), (const char *)dl.p);
     mc::crash_context("C19.harness");
@@ -71,6 +78,7 @@ static void long_trim(const Str &s)
 {
     Str want = ref_trim(s);
     PL b(s);
+    b.freeze();
     mc::crash_context("C19.trim.memory%s", g_sfx);
     Str got = w_trim(b.p, b.n);
     mc::crash_context("C19.harness");
@@ -84,6 +92,7 @@ static void long_cmdargs(const Str &s)
 {
     Toks want = ref_cmdargs(s);
     PL b(s);
+    b.freeze();
     mc::crash_context("C19.split_cmdargs.memory%s", g_sfx);
     Toks got = igris::split_cmdargs(igris::buffer((const void *)b.p, b.n));
     mc::crash_context("C19.harness");
@@ -133,6 +142,7 @@ static void long_split_n(const Str &s, int argcmax)
 static void long_creader(const Str &s)
 {
     PL b(s);
+    b.freeze();
     void *r = w_creader_new(b.p, b.n);
     long lines = 0;
     for (size_t it = 0; it < s.size() + 3; it++)
@@ -161,6 +171,7 @@ static void long_creader(const Str &s)
 static void long_memmem(const Str &h, const Str &nd)
 {
     PL hb(h, 0), nb(nd, 1);
+    hb.freeze(), nb.freeze();
     mc::crash_context("C19.memmem.memory%s", g_sfx);
     char *g = (char *)igris_memmem(hb.p, hb.n, nb.p, nb.n);
     mc::crash_context("C19.harness");
@@ -205,6 +216,7 @@ static void long_replace(const Str &src, const Str &sub, const Str &rep)
     for (size_t maxsize : sizes)
     {
         PL in(src, 0), sb(sub, 1), rp(rep, 2);
+        in.freeze(), sb.freeze(), rp.freeze();
         Exact out(maxsize, 3);
         mc::crash_context(maxsize < need ? "C19.replace_substrings.memory.result_longer_than_maxsize%s"
                                          : "C19.replace_substrings.memory%s", g_sfx);
@@ -425,5 +437,81 @@ MC_INIT
                 long_replace(x, pass == 1 ? Str("a") : Str("b"), pass == 1 ? Str("xy") : Str(""));
             }
         mc::more_cases(71, s.empty() ? 0 : 71);
+    });
+
+    // ---------------------------------------------------------------- const inputs in read-only memory
+    // Every routine that takes its text as const gets it in a PROT_READ mapping flush against a PROT_NONE page (both
+    // builds): all inputs of length 0..4 (thorough 5) over the 10-symbol alphabet and three long patterns.
+    mc::add_check("readonly_inputs", [] {
+        g_sfx = ".readonly_input";
+        static const char SG[10] = {' ', 'a', 'b', '"', '\'', '/', '.', '\0', '\t', '\n'};
+        int L = mc::thorough() ? 5 : 4;
+        long nshort = count_upto(10, L);
+        int u = mc::choose((int)nshort + 3 * LP_COUNT);
+        Str s;
+        if (u < nshort)
+            s = nth_str(SG, 10, u);
+        else
+        {
+            static const size_t LL[3] = {255, 256, 1000};
+            const char *nm = "";
+            s = long_pattern((u - (int)nshort) % LP_COUNT, LL[(u - nshort) / LP_COUNT], ' ', &nm);
+        }
+        mc::describe("read-only input=%s through split/join/trim/split_cmdargs/creader/memmem/replace_substrings", escb(s).c_str());
+        mc::nontrivial();
+        RoMode ro;
+        long_split_char_join(s, ' ');
+        long_split_char_join(s, '\0');
+        long_split_delims(s, " \t");
+        long_split_delims(s, "");
+        long_trim(s);
+        long_cmdargs(s);
+        long_creader(s);
+        long_memmem(s, "b");
+        long_memmem(s, s.size() > 2 ? s.substr(s.size() - 2) : Str("ab"));
+        long_replace(s, "a", "bb");
+        mc::more_cases(9, 9);
+    });
+
+    // ---------------------------------------------------------------- igris::buffer conversions
+    // The entry points take igris::buffer; callers hand over std::string / std::string_view and rely on the implicit
+    // conversion.  A string with embedded NULs must arrive whole: all strings 0..5 (thorough 6) over the 10-symbol alphabet.
+    mc::add_check("buffer_conversions", [] {
+        static const char SG[10] = {' ', 'a', 'b', '"', '\'', '/', '.', '\0', '\t', '\n'};
+        Str s = enum_str(SG, 10, mc::thorough() ? 6 : 5, 2);
+        mc::describe("std::string / string_view -> igris::buffer: input=%s through split, split(delims), split_cmdargs, trim", esc(s).c_str());
+        bool nul = s.find('\0') != Str::npos;
+        if (nul)
+            mc::nontrivial();
+        auto is_sp = [](char c) { return c == ' '; };
+        auto is_d = [](char c) { return c == ' ' || c == '\t'; };
+        for (int via = 0; via < 2; via++)
+        {
+            const char *how = via ? "string_view" : "std::string";
+            Str sig = via ? ".via_string_view" : ".via_std_string";
+            if (nul)
+                sig += ".nul_in_input";
+            std::string_view sv(s);
+            mc::crash_context("C19.buffer_conversion.memory");
+            igris::buffer b = via ? igris::buffer(sv) : igris::buffer(s);
+            Toks t1 = via ? igris::split(sv, ' ') : igris::split(s, ' ');
+            Toks t2 = via ? igris::split(sv, " \t") : igris::split(s, " \t");
+            Toks t3 = via ? igris::split_cmdargs(sv) : igris::split_cmdargs(s);
+            Str t4 = via ? w_trim_sv(sv) : w_trim_s(s);
+            mc::crash_context("C19.harness");
+            mc::outcome(mc::fmt("conv size=%zu", b.size()));
+            if (b.size() != s.size() || b.data() != s.data())
+                mc::violation("C19.buffer.size" + sig, "igris::buffer(%s %s): size %zu, the string has %zu bytes", how, esc(s).c_str(),
+                              b.size(), s.size());
+            if (t1 != ref_split(s, is_sp))
+                mc::violation("C19.split_char.value" + sig, "split(%s %s, ' ') = %s", how, esc(s).c_str(), esc(t1).c_str());
+            if (t2 != ref_split(s, is_d))
+                mc::violation("C19.split_delims.value" + sig, "split(%s %s, \" \\t\") = %s", how, esc(s).c_str(), esc(t2).c_str());
+            if (t3 != ref_cmdargs(s))
+                mc::violation("C19.split_cmdargs.value" + sig, "split_cmdargs(%s %s) = %s", how, esc(s).c_str(), esc(t3).c_str());
+            if (t4 != ref_trim(s))
+                mc::violation("C19.trim.value" + sig, "trim(%s %s) = %s", how, esc(s).c_str(), esc(t4).c_str());
+        }
+        mc::more_cases(9, nul ? 9 : 0);
     });
 }
